@@ -30,6 +30,7 @@ for name, extra in (("tags=gofuzz", ["-tags", "gofuzz"]), ("GOARCH=386", ["-goar
     tmp = tempfile.mkdtemp(prefix="verif-cfg-")
     try:
         shutil.copy(f"{ROOT}/known_findings.jsonl", tmp)
+        os.symlink(f"{ROOT}/bin", os.path.join(tmp, "bin"))  # C01-R1 runs bin/goyacc from the verif directory
         rc2, out2 = run(extra, tmp)
         configs.append({"config": name, "exit": rc2})
         print(f"config {name}: exit {rc2}")
